@@ -375,7 +375,7 @@ pub fn run_check(chk: &dyn Check, cfg: &RunConfig) -> i32 {
                     continue;
                 }
                 let i = i1 - 1;
-                let owner = if prop == "C10" { "C10" } else { "C16" };
+                                let owner = hang_owner(prop);
                 let v = Violation::new(owner, "hang", format!("run {} did not return within {} s of wall-clock time: a command inside the code under test blocks or spins forever", i, hang_ms / 1000));
                 let case = generate_with_timeout(chk, run_seed(cfg.seed, prop, i), i, cfg.tier);
                 let a = std::mem::replace(&mut *agg.lock().unwrap(), Agg::empty());
@@ -478,6 +478,19 @@ struct TailCtx<'a> {
 /// failure (minimised, written as a replay file), the evidence file, the exit
 /// code. `hang`: a run that did not return (reported by the watchdog, which then
 /// ends the process with the code returned here).
+/// Whose violation a run that never returns is. C10: no input hangs the server; C14: eviction
+/// always terminates (every C14 run stores under random eviction); C18: after a fault on one
+/// connection the server keeps serving (a connection task that spins stops it); everywhere
+/// else it is reported as C16's (no command blocks forever) and noted as out of scope.
+pub fn hang_owner(prop: &str) -> &'static str {
+    match prop {
+        "C10" => "C10",
+        "C14" => "C14",
+        "C18" => "C18",
+        _ => "C16",
+    }
+}
+
 fn finish(ctx: &TailCtx, mut a: Agg, hang: Option<(u64, Case, Violation)>) -> i32 {
     let chk = ctx.chk;
     let cfg = ctx.cfg;
@@ -655,7 +668,7 @@ pub fn replay(chk: &dyn Check, doc: &Value) -> i32 {
         match rx.recv_timeout(std::time::Duration::from_secs(hang_secs())) {
             Ok(o) => o,
             Err(_) => {
-                let owner = if chk.id() == "C10" { "C10" } else { "C16" };
+                let owner = hang_owner(chk.id());
                 println!("replayed violation [{}:hang] the case did not return within {} s of wall-clock time", owner, hang_secs());
                 if want.ends_with(":hang") {
                     println!("VIOLATION property={} replay=(replayed)", chk.id());
